@@ -94,8 +94,8 @@ class Env:
         else:
             self.gates[tag].set_result(None)
 
-    def settle(self):
-        self.loop.run_ready(20000)
+    def settle(self, budget=20000):
+        self.loop.run_ready(budget)
 
     def close(self):
         for task in asyncio.all_tasks(self.loop):
@@ -796,14 +796,14 @@ def run_burst(spec, acc):
                     if piecewise:
                         for m in msgs:
                             reader.feed_data(m)
-                            env.settle()
+                            env.settle(5_000_000)
                     else:
                         reader.feed_data(b"".join(msgs))
-                        env.settle()
+                        env.settle(5_000_000)
                     env.barriers.setdefault("b", asyncio.Event()).set()
-                    env.settle()
+                    env.settle(5_000_000)
                     reader.feed_eof()
-                    env.settle()
+                    env.settle(5_000_000)
                     acc.evaluations += 1
                     acc.transitions += n + tail + 2
                     acc.nontrivial.add(h8(["burst", n, piecewise, tail]))
